@@ -284,5 +284,6 @@ pub fn run(tier: Tier) -> i32 {
     if tier.thorough() {
         string_differential(&mut rep, 7, small_tokens(), "strings-small");
     }
+    crate::derived::run_derived(&mut rep, "C03", crate::derived::Focus::Convert, tier.thorough());
     rep.finish()
 }
